@@ -695,6 +695,14 @@ def remove_tensor(expr: e.Expr, t_name: str) -> dict:
         elif contrib.provided_target_idx is None:
             contrib.set_target_idx(collected.provided_target_idx)
 
+    def block_name(tensor: e.Obj) -> str:
+        # the name of the space/block of a tensor as used in the keys of the
+        # returned dict
+        spin = tensor.spin
+        if all(c == "n" for c in spin):
+            return tensor.space
+        return f"{tensor.space}_{spin}"
+
     def process_term(term: e.Term, t_name):
         # print(f"\nProcessing term {term}")
         # collect all occurences of the desired tensor
@@ -707,6 +715,12 @@ def remove_tensor(expr: e.Expr, t_name: str) -> dict:
                 remaining_term *= obj
         if not tensors:  # could not find the tensor
             return {("none",): term}
+        # remove the occurences in the order of their blocks, i.e., in the
+        # order the blocks are listed in the key of the returned dict.
+        # Otherwise the assignment of the indices of the block expression to
+        # the removed blocks depends on the order of the objects in the term
+        # and contributions to the same key can not be added.
+        tensors.sort(key=block_name)
         # extract all the target indices and split according to their space
         target_indices = {}
         for s in term.target:
@@ -732,11 +746,7 @@ def remove_tensor(expr: e.Expr, t_name: str) -> dict:
                                 target_indices)
         # determine the space/block of the removed tensor
         # used as key in the returned dict
-        spin = tensor.spin
-        if all(c == "n" for c in spin):
-            t_block = [tensor.space]
-        else:
-            t_block = [f"{tensor.space}_{spin}"]
+        t_block = [block_name(tensor)]
         # print(t_block, remaining_term)
         # only a single occurence (with exponent 1): no need to recurse
         if len(tensors) == 1 and exponent == 1:
